@@ -27,6 +27,7 @@ LEVEL_TEXT = (
     "dispatch is exhaustive over the running interpreter's operator universe, comprehension scopes are restored on "
     "every exit and the shared AST is never mutated"
     "; subscript reads are ordered against operand evaluation (augmented subscript assignment reads the element before evaluating the right-hand side)"
+    "; no handler converts an exception raised by script-driven code into another class; a comprehension leaves the enclosing variable of the same name (also when it lives in a closure cell) exactly as it was; `**` operands, annotated assignments and dict-display key hashing follow CPython's order and errors"
 )
 LEVEL_NOTE = (
     "trusted: the abstract evaluator's model of Python (cross-validated against compile()+dis for operand order), the "
